@@ -14,9 +14,14 @@ Run-time contracts evaluated on the real `bnp.open(path, 'w'|'a').write(...)` / 
 
 Scope: per type a pool of K hand-built rows with field widths 1..long, every table of 0..2 rows over the pool and
 3-row tables (quick: a Latin-square sample, thorough: all), every composition of the rows into pieces plus empty
-pieces in front / in the middle / at the end; FASTA lengths around multiples of 80; sequence alphabets; chromosome as
-StringEncoding; integer boundaries 10^k-1, 10^k (k<=14) and, as its own region, |v| >= 10^15-1; file suffixes and
-mode spellings.
+pieces in front / in the middle / at the end; FASTA lengths around multiples of the line width (80, and subclasses with
+widths 1, 2, 3, 7 at every length 1..2W+2); sequence alphabets; chromosome as StringEncoding; integer boundaries
+10^k-1, 10^k (k<=14) and, as its own region, |v| >= 10^15-1; file suffixes and mode spellings; grouped_stream as the
+stream; a seeded sample of 4..6-row tables above the bounds.
+
+Failure signatures name the class of the fault, found by re-running neighbouring cases (`classify_write`): a failure of
+the single plain write is `canonical-bytes:<type | variant=.. | bigint | delimited>`, one that needs the pieces is
+`pieces-differ:<mode>[:gz-only][:<type>]`, header faults are `header-not-once:<mode>[:gz-only]:<missing|repeated|..>`.
 """
 import gzip
 import itertools
@@ -417,6 +422,12 @@ def _label(tmp, case, key, outcome):
         base = evaluate_write(tmp, dict(case, variant=None), tag="probe")[key]
         if base is not None and base[0] == "ok":
             return "variant=" + variant        # the same rows are fine with plain text columns
+    if SPECS[case["type"]].layout == "tsv" and case["mode"] == "one":
+        other = "bed6" if case["type"] == "interval" else "interval"
+        orows = (pool(other, None, "quick") * 2)[:len(case["rows"])]
+        probe = evaluate_write(tmp, dict(case, type=other, variant=None, rows=orows, suffix=None), tag="probe")[key]
+        if _same(probe, outcome):
+            return "delimited"                 # the simplest delimited table fails in the same way: not this type
     return case["type"]
 
 
@@ -560,7 +571,8 @@ def _lazy_signature_(tmp, case, new_rows, tail):
         exec_lazy(probe, tmp, dict(case, type="interval", rows=rows, header="", modify=mod), classify=False)
         if probe.failures:
             return "lazy-write:%s%s" % (what, tail)
-    return "lazy-write:%s:%s%s%s" % (what, case["type"], ":" + case["modify"]["field"] if case.get("modify") else "", tail)
+    field = ":" + case["modify"]["field"] if case.get("modify") and not tail else ""
+    return "lazy-write:%s:%s%s%s" % (what, case["type"], field, tail)
 
 
 def _lazy_zpart(col, tmp, case):
@@ -922,7 +934,24 @@ def rechunk_family(tier):
                     yield {"kind": "rechunk", "type": tname, "rows": rows, "header": header, "gz": gz, "chunk": chunk}
 
 
-def all_cases(tier):
+def sampled_family(tier, rng):
+    """above the exhaustive bounds: tables of 4..6 rows over the full pools, random cut, mode and target (seeded)"""
+    m = 6 if tier == "quick" else 60
+    for tname, variant in TYPE_VARIANTS:
+        p = pool(tname, variant, tier)
+        for _ in range(m):
+            n = rng.randint(4, 6)
+            rows = [p[rng.randrange(len(p))] for _ in range(n)]
+            cuts = sorted(rng.randrange(n + 1) for _ in range(rng.randint(1, 3)))
+            split = [b - a for a, b in zip([0] + cuts, cuts + [n])]
+            mode = rng.choice(["multi", "stream", "append"])
+            yield {"kind": "write", "type": tname, "variant": variant, "rows": rows, "split": split, "mode": mode,
+                   "gz": rng.random() < 0.4}
+        rows = [p[rng.randrange(len(p))] for _ in range(6)]
+        yield {"kind": "write", "type": tname, "variant": variant, "rows": rows, "split": [6], "mode": "one", "gz": False, "readback": True}
+
+
+def all_cases(tier, rng=None):
     K = 4 if tier == "quick" else 6
     K3 = 3 if tier == "quick" else 5
     kminor = 2 if tier == "quick" else 3
@@ -933,6 +962,9 @@ def all_cases(tier):
             for fam in (int_family(), bigint_family(), suffix_family(tier), mode_family(tier), width_family(tier),
                         grouped_family(tier), lazy_family(tier), rechunk_family(tier)):
                 for c in fam:
+                    yield c
+            if rng is not None:
+                for c in sampled_family(tier, rng):
                     yield c
         for (tname, variant), k, k3 in plans:
             p = pool(tname, variant, tier)
@@ -960,7 +992,7 @@ def run(tier="quick", seed=0):
                     "empty strings, negative ints, floats) and 3-row tables (quick: K*K Latin-square sample; thorough: all K^3) "
                     "x every composition of the rows into pieces (+ empty pieces) x {successive writes, stream of chunks, "
                     "'w' then 'a'} x {plain, gzip}; plus integer boundaries, suffixes, mode spellings, lazily read tables with one "
-                    "column replaced, read_chunks streams.  distinct = distinct (type, variant, rows, split, mode, target); "
+                    "column replaced, read_chunks streams, grouped streams, FASTA widths 1/2/3/7, seeded 4..6-row sample.  distinct = distinct (type, variant, rows, split, mode, target); "
                     "non-trivial = all (each writes a file and compares all bytes with the reference serialisation)",
                     budget_s=65 if tier == "quick" else 640)
     col.bounds = {"types": [t + (":" + v if v else "") for t, v in TYPE_VARIANTS + MINOR_VARIANTS],
@@ -969,11 +1001,16 @@ def run(tier="quick", seed=0):
                   "int_boundaries": "10^k-1, 10^k for k=1..14, 2^31, 2^32, 2^53 (+-1); region bigint: |v| >= 10^15-1 up to int64 limits",
                   "splits": "all compositions + empty piece first/last/middle", "modes": ["one", "multi", "stream", "append", "grouped (small family)"],
                   "targets": ["plain", "gzip"], "float_tolerance": "1e-9 relative"}
-    with TmpDir() as tmp:
-        for case in all_cases(tier):
-            exec_case(col, tmp, case)
-            if col.evaluations % 50 == 0 and col.out_of_time():
-                break
+    import logging
+    logging.disable(logging.WARNING)          # the library logs a warning per VCF read / header context; not a verdict
+    try:
+        with TmpDir() as tmp:
+            for case in all_cases(tier, col.rng):
+                exec_case(col, tmp, case)
+                if col.evaluations % 50 == 0 and col.out_of_time():
+                    break
+    finally:
+        logging.disable(logging.NOTSET)
     return col.result()
 
 
